@@ -102,9 +102,20 @@ def predicate(c, obs):
             i += 3
             if tag == 0:
                 consumed, tail_ok, nb = obs[i:i + 3]
+                written = obs[i + 3:i + 3 + nb]
                 i += 3 + nb
                 rep = obs[i]
                 i += 1
+                # the bytes are the serialization of the value the initializer DENOTES (DefaultInit: the default value; the
+                # array initializers: that many all-ones items) - an initializer whose value cannot be represented (more
+                # items than the length prefix can count) must not report success
+                want = U.init_val(ty, kind)
+                if want[0] == "err":
+                    return ("initializer kind %d reported success, but the value it denotes does not fit the type (%s): it wrote %s"
+                            % (kind, "more items than the length prefix can count", written[:12]))
+                if written != U.encode(ty, want):
+                    return "initializer kind %d wrote %s...; the value it denotes serializes to %s..." % (
+                        kind, written[:12], U.encode(ty, want)[:12])
                 if consumed != announced:
                     return "initializer kind %d announces INIT_BYTES = %d but init wrote %d bytes" % (kind, announced, consumed)
                 if not tail_ok:
